@@ -426,6 +426,8 @@ class XML(Filetype):
             return self.build_tree(path=path, options=options)
         except ET.ParseError as pe:
             return f'Error parsing {os.path.basename(path)}: {pe.msg}'
+        except LookupError as le:
+            return f'Error parsing {os.path.basename(path)}: {le!s}'
 
     def get_default_formatter(self) -> XMLFormatter:
         return XMLFormatter.DEFAULT_INSTANCE
